@@ -55,7 +55,7 @@ func genUniverse(r *common.Rand, size, maxDepth int) []enc.Name {
 }
 
 var strategies = []string{
-	"/8:6c6f63616c686f7374/8:6e6664/8:7374726174656779/8:6d756c746963617374/54:01", // /localhost/nfd/strategy/multicast/v=1
+	"/8:6c6f63616c686f7374/8:6e6664/8:7374726174656779/8:6d756c746963617374/54:01",   // /localhost/nfd/strategy/multicast/v=1
 	"/8:6c6f63616c686f7374/8:6e6664/8:7374726174656779/8:626573742d726f757465/54:01", // …/best-route/v=1
 	"/8:73/54:02",
 }
@@ -63,8 +63,11 @@ var strategies = []string{
 var costs = []uint64{0, 1, 5, 10, 10, 77, 18446744073709551615}
 
 func gen(g *common.Gen) {
+	// common.NewRand(seed+1) is common.NewRand(seed) advanced by one step, so the batches of the
+	// thorough tier (consecutive seeds) would be shifted copies of each other; mix the seed in.
+	root := common.NewRand(g.R.U64() ^ (common.Seed() * 0xD1B54A32D192ED03))
 	for i := 0; i < g.N; i++ {
-		r := g.R.Fork()
+		r := root.Fork()
 		size := r.Range(6, 28)
 		u := genUniverse(r, size, 7)
 		var m int
@@ -96,23 +99,45 @@ func gen(g *common.Gen) {
 			return common.Pick(r, targets)
 		}
 		nops := r.Range(8, 40)
+		type nf struct {
+			n string
+			f int
+		}
+		var inserted []nf     // (name, face) pairs inserted so far: removals aim at them
+		var stratSet []string // non-root names a strategy was set on
 		for k := 0; k < nops; k++ {
 			n := pick()
 			x := r.Intn(100)
 			switch {
 			case x < 38:
-				g.Op("ins %s %d %d", n, r.Range(1, 4), common.Pick(r, costs))
+				f := r.Range(1, 4)
+				g.Op("ins %s %d %d", n, f, common.Pick(r, costs))
+				inserted = append(inserted, nf{n, f})
 				g.Stat("op-ins")
 			case x < 60:
-				g.Op("rem %s %d", n, r.Range(1, 4))
+				f := r.Range(1, 4)
+				if len(inserted) > 0 && r.Chance(7, 10) {
+					e := common.Pick(r, inserted)
+					n, f = e.n, e.f
+				}
+				g.Op("rem %s %d", n, f)
 				g.Stat("op-rem")
 			case x < 68:
+				if len(inserted) > 0 && r.Chance(6, 10) {
+					n = common.Pick(r, inserted).n
+				}
 				g.Op("clr %s", n)
 				g.Stat("op-clr")
 			case x < 86:
 				g.Op("sets %s %s", n, common.Pick(r, strategies))
+				if n != "/" {
+					stratSet = append(stratSet, n)
+				}
 				g.Stat("op-sets")
 			default:
+				if len(stratSet) > 0 && r.Chance(7, 10) {
+					n = common.Pick(r, stratSet)
+				}
 				if n == "/" { // management refuses to unset the root strategy
 					g.Op("sets / %s", common.Pick(r, strategies))
 					g.Stat("op-sets")
